@@ -6,6 +6,7 @@ import (
 	"os"
 	"path/filepath"
 	"sort"
+	"strconv"
 	"strings"
 	"time"
 
@@ -280,6 +281,10 @@ func (r *report) finish(p *sym.Program, wall time.Duration) int {
 		fmt.Println(l)
 	}
 
+	// ---- translator validation: engine (concrete mode) vs native run on solver-chosen inputs ----
+	tvRuns, tvObs, tvMismatch := r.validateTranslator(p, &incomplete)
+	replays += tvRuns
+
 	// ---- evidence ----
 	var samples []interface{}
 	for i, c := range r.results {
@@ -357,6 +362,7 @@ func (r *report) finish(p *sym.Program, wall time.Duration) int {
 		"known_findings_not_observed": stale,
 		"known_finding_sites_holding": knownHeld,
 		"module_has_select": p.HasSelect,
+		"translator_validation": map[string]int{"cases_run_natively_and_in_concrete_mode": tvRuns, "observed_values_compared": tvObs, "mismatches": tvMismatch},
 		"engine_selftests":  fmt.Sprintf("%d/%d planted defects detected", selfOK, selfN),
 	}
 	ev := map[string]interface{}{
@@ -408,4 +414,109 @@ func imax(a, b int) int {
 		return a
 	}
 	return b
+}
+
+// validateTranslator replays a sample of cases under a solver-chosen model of
+// their path condition both in the executor's concrete mode and natively, and
+// compares the observed left operands of every assertion.
+func (r *report) validateTranslator(p *sym.Program, incomplete *[]string) (runs, obs, mismatches int) {
+	var cands []*sym.CaseResult
+	for _, c := range r.results {
+		if c.SampleModel != nil && len(c.Violations) == 0 && c.Incomplete == "" && !strings.HasPrefix(c.Spec.Tag, "self:") {
+			cands = append(cands, c)
+		}
+	}
+	if len(cands) == 0 {
+		return
+	}
+	max := 6
+	if r.opt.tier == "thorough" {
+		max = 24
+	}
+	step := len(cands) / max
+	if step == 0 {
+		step = 1
+	}
+	sol, err := sym.NewSolver(r.opt.timeoutMs)
+	if err != nil {
+		return
+	}
+	defer sol.Close()
+	dir := filepath.Join(verifDir, "replays", "tmp")
+	os.MkdirAll(dir, 0o755)
+	for i := 0; i < len(cands) && runs < max; i += step {
+		c := cands[i]
+		eobs, out, detail := sym.RunConcrete(p, sol, c.Spec, c.SampleModel)
+		if out != sym.ODone {
+			*incomplete = append(*incomplete, fmt.Sprintf("translator validation: concrete run of %s ended %s %s", c.Spec.ID(), out, detail))
+			continue
+		}
+		rf := replayFile{Property: r.opt.prop, Harness: c.Spec.Harness, Name: c.Spec.Name, Package: c.Spec.Pkg, Params: c.Spec.Params,
+			Mode: modeOf(c.Spec), Assignment: c.SampleModel, Expect: replayExpect{Kind: "observe"}}
+		path := filepath.Join(dir, sanitize(c.Spec.ID())+"-observe.json")
+		b, _ := json.MarshalIndent(rf, "", " ")
+		os.WriteFile(path, b, 0o644)
+		ro, err := runReplay(path)
+		os.Remove(path)
+		if err != nil || ro.Outcome != "done" {
+			*incomplete = append(*incomplete, fmt.Sprintf("translator validation: native run of %s failed", c.Spec.ID()))
+			continue
+		}
+		runs++
+		var nobs [][2]string
+		for _, l := range strings.Split(ro.Raw, "\n") {
+			l = strings.TrimSpace(l)
+			if strings.HasPrefix(l, "VRT-OBS ") {
+				f := strings.SplitN(strings.TrimPrefix(l, "VRT-OBS "), " ", 2)
+				if len(f) == 2 {
+					nobs = append(nobs, [2]string{f[0], f[1]})
+				}
+			}
+		}
+		bad := ""
+		if len(nobs) != len(eobs) {
+			bad = fmt.Sprintf("%d observations natively, %d in the executor", len(nobs), len(eobs))
+		}
+		for k := 0; k < len(nobs) && k < len(eobs) && bad == ""; k++ {
+			obs++
+			if nobs[k][0] != eobs[k].Label {
+				bad = fmt.Sprintf("observation %d: label %s vs %s", k, nobs[k][0], eobs[k].Label)
+			} else if !sameObs(nobs[k][1], eobs[k].Val) {
+				bad = fmt.Sprintf("%s: native %s, executor %s", eobs[k].Label, nobs[k][1], eobs[k].Val)
+			}
+		}
+		if bad != "" {
+			mismatches++
+			*incomplete = append(*incomplete, "TRANSLATOR VALIDATION MISMATCH "+c.Spec.ID()+": "+bad)
+		}
+	}
+	return
+}
+
+func sameObs(a, b string) bool {
+	if a == b {
+		return true
+	}
+	x, e1 := strconv.ParseFloat(a, 64)
+	y, e2 := strconv.ParseFloat(b, 64)
+	if e1 != nil || e2 != nil {
+		return false
+	}
+	if x != x && y != y {
+		return true
+	}
+	d := x - y
+	if d < 0 {
+		d = -d
+	}
+	m := 1.0
+	for _, v := range []float64{x, y} {
+		if v < 0 {
+			v = -v
+		}
+		if v > m {
+			m = v
+		}
+	}
+	return d <= 1e-6*m
 }
